@@ -224,7 +224,7 @@ def _run_acq(ctx, case):
             ctx.count("cov_cost_kind_" + (case.get("cost_kind", "float_array") if handed is not None else "none"))
             model = stubs.ScriptedModelList(X, np.zeros((n, m)), covs)
             acq = MaxVarianceDecoupledAcquisition(model, costs=handed)
-            table = []
+            table, flagged = [], False
             for j in range(m):
                 acq.evaluation_index = j
                 seen = [float(v) for v in np.asarray(acq(x), dtype=float).reshape(-1)]
@@ -235,10 +235,11 @@ def _run_acq(ctx, case):
                     row.append(b)
                     ok = b is not None and (core.frac(a) == b if exact_div else
                                             abs(a - float(b)) <= 1e-12 * max(1.0, abs(float(b))))
-                    if not ok:
+                    if not ok and not flagged:
+                        flagged = True   # reported once; the batch check below still runs on the definition table
                         _viol(ctx, "acq-value", "MaxVarianceDecoupledAcquisition: value differs from cov[j][j] / cost[j]",
-                              case, kind="F", detail={"design": i, "objective": j, "seen": a, "lean": ex})
-                        break
+                              case, kind="F", detail={"design": i, "objective": j, "seen": a, "lean": ex,
+                                                      "costs": repr(handed)})
                 table.append(row)
             acq.evaluation_index = None
             if all(b is not None for r in table for b in r) and all(len(r) == len(order) for r in table):
